@@ -45,6 +45,27 @@ void probe(std::ostream& out, const char* cname, const char* pname, const char* 
   o << "]";
   out << o.str() << "\n";
 }
+// alternatives of one variant parameter: after set(A); set(B) the object holds B only
+template <typename C, typename A, typename B>
+void cross(std::ostream& out, const char* cname, const char* aname, const char* bname, const std::function<C*()>& make) {
+  std::ostringstream o;
+  o << "cross " << cname << " " << aname << " " << bname << " ";
+  try {
+    C* c = make();
+    Rng rng(7);
+    auto va = Gen<A>::make(rng);
+    auto vb = Gen<B>::make(rng);
+    if (!va || !vb) { out << o.str() << "novalues\n"; return; }
+    c->set(*va);
+    bool hasA1 = c->template has<A>();
+    c->set(*vb);
+    o << "hasA_after_setA=" << (hasA1 ? 1 : 0) << " hasA=" << (c->template has<A>() ? 1 : 0) << " hasB=" << (c->template has<B>() ? 1 : 0)
+      << " getB=" << (c->template has<B>() ? show(c->template get<B>()) : std::string("-")) << " expected=" << show(*vb);
+  } catch (const std::exception& e) {
+    o << "EXCEPTION:" << e.what();
+  }
+  out << o.str() << "\n";
+}
 }  // namespace
 
 #include "probe_tables.inc"
